@@ -234,6 +234,25 @@ impl Check for C08 {
             "best-effort writeback failures may legitimately neither surface nor latch; refusal of writes is required only after an error was reported to the caller".into(),
         ]
     }
+    fn extra(&self, tier: Tier, seed: u64, acc: &mut crate::driver::Acc) -> Vec<(Failure, Option<Tape>)> {
+        // stateful readers (cursors, range iterators) that keep being used after one failed call
+        let (st, fails) = crate::c08cursor::run_grid(seed, tier == Tier::Thorough, 16);
+        acc.extra.insert(
+            "readers_under_one_shot_faults".into(),
+            json!({"what": "CursorMut / Cursor / range iterator positioned in a committed multi-leaf table with part of it cached; the k-th backend call from then on fails once; the reader keeps being used: every Ok entry must be exactly the next committed entry, Ok(None) only at the true end (src/c08cursor.rs); grid over reader kind x direction x page size x cache size x warm pattern x k x start",
+                "scenarios": st.scenarios, "fault_fired": st.fault_fired, "scenarios_in_which_the_reader_returned_an_error": st.with_error_returned, "entries_returned_ok_after_an_error": st.ok_after_error}),
+        );
+        let mut out: Vec<(Failure, Option<Tape>)> = fails.into_iter().map(|f| (f, None)).collect();
+        // a backend call that fails by panicking inside a write transaction / commit
+        let (st, fails) = crate::c08panic::run_grid(seed, tier == Tier::Thorough, 16);
+        acc.extra.insert(
+            "backend_call_panics".into(),
+            json!({"what": "the k-th backend call of a write transaction (body or commit; 1PC, 2PC, non-durable; after durable / non-durable commits) panics, the caller catches it and keeps using the Database: later calls refuse or behave per the model (poisoned-lock panics tolerated and counted), reopen equals an admissible commit point, check_integrity Ok (src/c08panic.rs)",
+                "scenarios": st.scenarios, "panic_fired": st.panic_fired, "later_commits_ok": st.later_commits_ok, "later_write_attempts_refused": st.later_refused, "later_panics_naming_a_poisoned_lock": st.poison_panics}),
+        );
+        out.extend(fails.into_iter().map(|f| (f, None)));
+        out
+    }
     fn plan(&self, tier: Tier) -> Plan {
         unsafe { std::env::set_var("VERIF_TIER_INTERNAL", tier.name()) };
         Plan { cases: tier.pick(300, 4000), max_recs: tier.pick(60, 90), max_shrink_iters: 200, workers: 16 }
